@@ -24,11 +24,18 @@ VARIABLES enc,    \* the selected role of the SP advertises an encryption certif
           bind,   \* binding of the selected assertion consumer service: "post" | "artifact"
           aEl,    \* req.AssertionEl: "nil" | "plain" | "enc"
           rEl,    \* what req.ResponseEl carries: "nil" | "plain" | "enc"
+          made,   \* "validated": the value comes from NewIdpAuthnRequest + Validate; "assembled": the application put it together
+                  \* itself (its own IdP-initiated handler) - registered metadata and endpoint set, SPSSODescriptor left nil
           hist    \* <<[c, f, fired, out, content]>>: call, fault armed (none / enc / sig1 / sig2), whether it fired, outcome ok / err / form, content of the form
-vars == <<enc, bind, aEl, rEl, hist>>
+vars == <<enc, bind, aEl, rEl, made, hist>>
 
+\* An assembled value without descriptor cannot say whether the SP wants encryption: the code dereferences the nil
+\* descriptor in MakeAssertion (a panic - nothing leaves the IdP); reading "no descriptor" as "no encryption key" would
+\* put the assertion of an SP that advertises a key on the wire in clear
 Init == /\ enc \in BOOLEAN /\ bind \in {"post", "artifact"}
-        /\ aEl = "nil" /\ rEl = "nil" /\ hist = <<>>
+        /\ aEl = "nil" /\ rEl = "nil"
+        /\ \/ made = "validated" /\ hist = <<>>
+           \/ made = "assembled" /\ hist = << [c |-> "MakeAssertion", f |-> "none", fired |-> FALSE, out |-> "panic", content |-> "none"] >>
 
 \* Faults (one-shot, armed for one call): "enc" - the random source of the encryption step fails; "sig1" / "sig2" -
 \* the first / second signature operation of the call fails (an external crypto.Signer that errors once).
@@ -53,6 +60,7 @@ Post(F) == LET m == IF rEl = "nil" THEN MkR(F) ELSE [ok |-> TRUE, a |-> aEl, r |
               ELSE [out |-> "form", a |-> m.a, r |-> m.r, content |-> m.r, fired |-> m.fired]
 
 Call(c, F) ==
+  /\ made = "validated"
   /\ Len(hist) < MaxCalls
   /\ F = "enc" => enc               \* that fault is a failure of the encryption step
   /\ F # "none" => Cardinality({ k \in DOMAIN hist : hist[k].f # "none" }) < MaxFaults
@@ -61,7 +69,7 @@ Call(c, F) ==
                   [] OTHER                 -> Post(F)
      IN /\ aEl' = res.a /\ rEl' = res.r
         /\ hist' = Append(hist, [c |-> c, f |-> F, fired |-> res.fired, out |-> res.out, content |-> res.content])
-  /\ UNCHANGED <<enc, bind>>
+  /\ UNCHANGED <<enc, bind, made>>
 
 Next == \E c \in Calls, F \in Faults : Call(c, F)
 Spec == Init /\ [][Next]_vars
@@ -83,5 +91,5 @@ FailedCallIsNoop == [][ hist' # hist /\ hist'[Len(hist')].fired =>
 \* unsigned element - the harness verifies both signatures of everything that is emitted)
 Coherent == rEl # "nil" => rEl = aEl
 
-Emit == hist # <<>> => PrintT(<<"HIST", ToJson([enc |-> enc, bind |-> bind, hist |-> hist])>>)
+Emit == hist # <<>> => PrintT(<<"HIST", ToJson([enc |-> enc, bind |-> bind, made |-> made, hist |-> hist])>>)
 =============================================================================
